@@ -9,9 +9,12 @@
   * Fisher–Yates maps legal draw vectors bijectively onto the arrangements.
 
   (The hidden-identity half of C19 is in Props/C19Fields.lean.)
-  Statements only; proofs in Saltpack/Proofs/Rand.lean.
+  Statements only; proofs in Saltpack/Proofs/Rand.lean and (the link between
+  the byte-level shuffle of the sender models and these word-level facts)
+  Saltpack/Proofs/RandBytes.lean.
 -/
 import Saltpack.Proofs.Rand
+import Saltpack.Proofs.RandBytes
 
 namespace Saltpack.Props.C19
 open Saltpack Saltpack.Rand
@@ -79,10 +82,95 @@ theorem C19_drawsFrom_valid (k : Nat) (hk : k + 1 < 2 ^ 32) (vs js rest : List N
     drawsFrom k vs = some (js, rest) → ValidDraws k js :=
   Proofs.drawsFrom_valid k hk vs js rest hv
 
+/-! ## the sender models: from source bytes to the header order
+
+  `Encrypt.sealRand` / `Signcrypt.sealRand` do not call `Rand.u32n` /
+  `Rand.drawsFrom`; they run `Encrypt.shuffleDraws` over the byte source.  These
+  theorems close the gap: the byte-level draws *are* `drawsFrom` of the 32-bit
+  big-endian words read from the source, they are legal, and the recipient
+  order of the emitted header is `Rand.shuffle` of them — so
+  `C19_uint32n_uniform` and `C19_shuffle_bijection` reach the header order. -/
+
+/-- `readWords c`: `c` successive full reads of 4 bytes, each taken as a
+    big-endian word (`csprngUint32`) -/
+theorem C19_readWords_def (c : Nat) (src : Source) :
+    Proofs.readWords 0 src = some ([], src) ∧
+    Proofs.readWords (c + 1) src =
+      (match readFull 4 src with
+       | none => none
+       | some (b, src') =>
+         match Proofs.readWords c src' with
+         | none => none
+         | some (ws, rest) => some (natOfBytes b :: ws, rest)) :=
+  ⟨rfl, rfl⟩
+
+/-- the draws of the byte-level shuffle are legal Fisher–Yates draws -/
+theorem C19_shuffleDraws_valid (k : Nat) (src : Source) (fuel : Nat) (js : List Nat) (rest : Source)
+    (h : Encrypt.shuffleDraws k src fuel = .ok (js, rest)) : ValidDraws k js :=
+  Proofs.shuffleDraws_valid k src fuel js rest h
+
+/-- **the byte-level draws are the word-level draws**: a successful
+    `shuffleDraws k` read some number `c` of 32-bit words `ws` (each `< 2^32`)
+    from the source, up to the returned rest, and its draw vector is
+    `drawsFrom k ws` with every word consumed -/
+theorem C19_shuffleDraws_are_drawsFrom (k : Nat) (src : Source) (fuel : Nat) (js : List Nat) (rest : Source)
+    (h : Encrypt.shuffleDraws k src fuel = .ok (js, rest)) :
+    ∃ c ws, Proofs.readWords c src = some (ws, rest) ∧ (∀ w ∈ ws, w < 2 ^ 32) ∧
+      drawsFrom k ws = some (js, []) :=
+  Proofs.shuffleDraws_words k src fuel js rest h
+
+/-- **`Seal`: the header order is the shuffle.**  The message `sealRand` emits
+    consists of the header packet of a header `hd` and the payload packets, where
+    `hd.receivers` are the entries built for `Rand.shuffle js rs` in this order
+    (key-id column spelled out), `js` being legal draws that are `drawsFrom` of
+    the words `ws` read first from the source. -/
+theorem C19_header_order_is_shuffle (P : Prims) (bs : Nat) (v : Version) (sender : Option Bytes)
+    (rs : List Encrypt.Recipient) (eph : Encrypt.EphSource) (src : Source) (pt m : Bytes) (rest : Source)
+    (h : Encrypt.sealRand P bs v sender rs eph src pt = .ok (m, rest)) :
+    ∃ js src1 c ws ephSec pk hd hb blks body,
+      Proofs.readWords c src = some (ws, src1) ∧ (∀ w ∈ ws, w < 2 ^ 32) ∧
+      drawsFrom (rs.length - 1) ws = some (js, []) ∧
+      ValidDraws (rs.length - 1) js ∧
+      Encrypt.sealPackets P bs v sender (shuffle js rs) ephSec pk pt = .ok (hd, hb, blks) ∧
+      Encrypt.encodeBlocks v blks = .ok body ∧
+      m = headerPacket hb ++ body ∧ hb = Msgpack.encode hd.toVal ∧
+      Encrypt.receiverEntries P v ephSec pk (shuffle js rs) 0 = .ok hd.receivers ∧
+      hd.receivers.map (·.kid) = (shuffle js rs).map (fun r => if r.hidden then none else some r.pub) :=
+  Proofs.sealRand_header_order P bs v sender rs eph src pt m rest h
+
+/-- the same for `SigncryptSeal` (box keys followed by symmetric keys, shuffled
+    together) -/
+theorem C19_signcrypt_header_order_is_shuffle (P : Prims) (bs : Nat) (sender : Option Bytes)
+    (boxes syms : List Signcrypt.Recipient) (eph : Encrypt.EphSource) (src : Source) (pt m : Bytes) (rest : Source)
+    (h : Signcrypt.sealRand P bs sender boxes syms eph src pt = .ok (m, rest)) :
+    ∃ js src1 c ws ephSec pk hd hb blks,
+      Proofs.readWords c src = some (ws, src1) ∧ (∀ w ∈ ws, w < 2 ^ 32) ∧
+      drawsFrom ((boxes ++ syms).length - 1) ws = some (js, []) ∧
+      ValidDraws ((boxes ++ syms).length - 1) js ∧
+      Signcrypt.sealPackets P bs sender (shuffle js (boxes ++ syms)) ephSec pk pt = .ok (hd, hb, blks) ∧
+      m = headerPacket hb ++ Signcrypt.encodeBlocks blks ∧ hb = Msgpack.encode hd.toVal ∧
+      hd.receivers = Signcrypt.receiverEntries P ephSec pk (shuffle js (boxes ++ syms)) 0 :=
+  Proofs.sc_sealRand_header_order P bs sender boxes syms eph src pt m rest h
+
+/-- composed with the bijection: for distinct recipients, every arrangement
+    `target` of the caller's list is the header order for exactly one legal draw
+    vector — whatever order the caller used -/
+theorem C19_header_order_reaches_all (rs target : List Encrypt.Recipient) (hl : rs.Nodup) (hp : target.Perm rs) :
+    ∃ js, (ValidDraws (rs.length - 1) js ∧ shuffle js rs = target) ∧
+      ∀ js', ValidDraws (rs.length - 1) js' ∧ shuffle js' rs = target → js' = js :=
+  C19_shuffle_bijection rs target hl hp
+
 /-! ## non-vacuity -/
 
 example : u32nStep 3 0 = none ∧ u32nStep 3 1 = some 0 ∧ u32nStep 3 (2 ^ 32 - 1) = some 2 := by decide
 example : shuffle [0, 1] [10, 20, 30] = [30, 20, 10] := by decide
 example : ValidDraws 2 [0, 1] := by simp [ValidDraws]
+/-- byte level: word 0 is rejected for bound 3 and redrawn; word 1 gives 0;
+    word `2^32-1` gives 1 for bound 2 -/
+example : Encrypt.shuffleDraws 2 [⟨[0, 0, 0, 0], false⟩, ⟨[0, 0, 0, 1], false⟩, ⟨[255, 255, 255, 255], false⟩] 4
+    = .ok ([0, 1], []) := by decide
+example : Proofs.readWords 3 [⟨[0, 0, 0, 0], false⟩, ⟨[0, 0, 0, 1], false⟩, ⟨[255, 255, 255, 255], false⟩]
+    = some ([0, 1, 2 ^ 32 - 1], []) := by decide
+example : drawsFrom 2 [0, 1, 2 ^ 32 - 1] = some ([0, 1], []) := by decide
 
 end Saltpack.Props.C19
